@@ -462,6 +462,9 @@ def _round(number, num_digits, _rounding=decimal.ROUND_HALF_UP):
     number = decimal.Decimal(str(number))
     with decimal.localcontext() as dc:
         dc.rounding = _rounding
+        # Every double, at every digit count, must fit (the default 28 digits
+        # make ROUND(1E+22, 6) an InvalidOperation).
+        dc.prec = 400
         ans = round(number, int(num_digits))
     return float(ans)
 
